@@ -87,8 +87,13 @@ class MuxComp(ExplicitComponent):
             raise ValueError('{3}: Cannot mux a {0}D inputs for {2} along axis greater '
                              'than {0} ({1})'.format(in_dimension, ax, name, self.msginfo))
 
+        out_val = options['val']
+        if np.ndim(out_val) > 0:
+            # val has the shape of one input: the initial output is vec_size copies of it
+            out_val = np.stack([np.asarray(out_val).reshape(in_shape)] * vec_size, axis=ax)
+
         self.add_output(name=name,
-                        val=options['val'],
+                        val=out_val,
                         shape=out_shape,
                         units=options['units'],
                         desc=options['desc'])
